@@ -29,7 +29,7 @@ FLOORS = {"nontrivial": 0.3, "no-tie-everywhere": 0.15, "bnode-renamed": 0.1}
 def cases(draw, tier):
     odd = draw(st.integers(0, 3)) == 0     # classes that are themselves typed / used as values; literals spelling a node's IRI
     g = draw(gg.general(max_stmts=25, inst_props=(RDF_TYPE, RDF_TYPE, RDF_TYPE, "http://ex.org/isA"), class_typing=odd,
-                        iri_like_literals=odd))
+                        iri_like_literals=odd, quirks=draw(gg.quirk_set(one_in=4))))
     cfg = draw(gg.switches())
     cfg["instances_report_mode"] = "mixed"
     target = draw(common.target_spec(g))
